@@ -705,6 +705,8 @@ class Peer:
         # Timing instrumentation for peer message loop
         peer_loop_timer = LoopTimer(f'peer_main_{self.id()}', warn_threshold_ms=50)
 
+        read_task: asyncio.Future[Message] | None = None
+
         try:
             while not self._teardown:
                 peer_loop_timer.start()
@@ -718,9 +720,16 @@ class Peer:
                     self._neighbor = None
 
                 # Read message with timeout
-                try:
-                    message = await asyncio.wait_for(self.proto.read_message(), timeout=0.1)
-                except asyncio.TimeoutError:
+                # A read which is cancelled half way through a message loses the bytes it already
+                # took from the socket and the stream is out of step from then on, so the same
+                # read is kept going across iterations instead of being cancelled by wait_for
+                if read_task is None:
+                    read_task = asyncio.ensure_future(self.proto.read_message())
+                done, _ = await asyncio.wait({read_task}, timeout=0.1)
+                if done:
+                    finished, read_task = read_task, None
+                    message = finished.result()
+                else:
                     message = _NOP
                     await asyncio.sleep(0)
 
@@ -765,6 +774,11 @@ class Peer:
         except Exception as exc:
             log.error(lazyexc('async.mainloop.exception error={exc}', exc), self.id())
             raise
+        finally:
+            if read_task is not None:
+                if read_task.done() and not read_task.cancelled():
+                    read_task.exception()  # retrieved, the session is ending anyway
+                read_task.cancel()
 
         # Graceful restart handling
         log.debug(
